@@ -423,6 +423,7 @@ def run(ctx, rep):
     c04_progress.run(ctx, rep, rid="R-C12-progress")
     from rules import c04_magnitude
     c04_magnitude.run(ctx, rep, rid="R-C12-magnitude")
+    c04_magnitude.run_errrun(ctx, rep, rid="R-C12-errrun")
     from rules import c04_backtrack
     c04_backtrack.run(ctx, rep, rid="R-C12-backtrack")
     from rules import c04_recursion
